@@ -1047,7 +1047,11 @@ impl Engine for C13 {
         if z.chance(20) {
             let span = 5 * p.items.len() as u64 + 6;
             let n = p.items.len() as u64;
-            let side = |z: &mut Rng| crate::simjar::LazyPlan::draw(z, span, n);
+            let side = |z: &mut Rng| {
+                let mut l = crate::simjar::LazyPlan::draw(z, span, n);
+                l.renumber = z.chance(30);
+                l
+            };
             let c = side(&mut z);
             let sv = side(&mut z);
             p.lazy = Some((c, sv));
@@ -1326,7 +1330,7 @@ impl Engine for C13 {
                     // of the merged jar follows the order in which the jars list their names, which the property does
                     // not constrain: with a drawn names order the comparison is by entry name
                     let (mut a, mut b2) = (obs0.clone(), o.clone());
-                    if lc.names_order != 0 || ls.names_order != 0 {
+                    if lc.names_order != 0 || ls.names_order != 0 || lc.renumber || ls.renumber {
                         a.sort_by(|x, y| x.0.cmp(&y.0));
                         b2.sort_by(|x, y| x.0.cmp(&y.0));
                     }
